@@ -218,6 +218,9 @@ func (p *Path) Events() []*Event { return p.State.Events }
 type EvalConfig struct {
 	// Inline decides whether a static callee (origin, with body) is evaluated in place.
 	Inline func(callee *ssa.Function, depth int) bool
+	// KeepHandedClosures: a function literal handed to a helper and called there stays an opaque call event (the rule
+	// is about that very call).
+	KeepHandedClosures bool
 	// ResolveInvoke may bind an interface method call to a concrete function (nil = opaque).
 	ResolveInvoke func(ev *Evaluator, st *State, recv *T, method string) (*ssa.Function, *T)
 	// DecideReturns: fork on undecided boolean results of the evaluated (base) function.
@@ -248,6 +251,8 @@ type Evaluator struct {
 	Err     error
 	done    []*Path
 	rootPkg *ssa.Package
+	// seamVals: values the seam table supplied (their receivers are bound by static type)
+	seamVals map[*T]bool
 }
 
 // protocolNames: functions whose calls are events of the rules' specifications; the same-package inlining
@@ -499,6 +504,13 @@ func (ev *Evaluator) load(st *State, addr *T, typ types.Type) *T {
 	}
 	if isFreshRoot(addr) {
 		return ev.TS.zeroOf(typ)
+	}
+	if sv := ev.seamLoad(st, addr, typ); sv != nil {
+		if ev.seamVals == nil {
+			ev.seamVals = map[*T]bool{}
+		}
+		ev.seamVals[sv] = true
+		return sv
 	}
 	g := st.gen[addr]
 	aux := ""
@@ -1644,6 +1656,11 @@ func (ev *Evaluator) callEvent(st *State, fr *Frame, c *ssa.CallCommon, instr ss
 					e.Recv = ft.Args[0]
 					e.Method = strings.TrimSuffix(ft.Fn.Name(), "$bound")
 					e.FnTerm = nil
+					if m := ev.P.TargetOf(ft.Fn); m != nil && m != origin(ft.Fn) && m.Signature.Recv() != nil && !ev.Cfg.KeepHandedClosures {
+						e.Fn = m
+						e.Callee = qualName(m)
+						e.Method = canonName(m)
+					}
 				}
 			}
 		} else {
@@ -1740,6 +1757,8 @@ func (ev *Evaluator) doCall(st *State, fr *Frame, c *ssa.CallCommon, instr ssa.I
 
 	// resolve callee
 	callee := e.Fn
+	seamRecv := c.IsInvoke() && e.Recv != nil && (e.Recv.Op == "struct" || ev.seamVals[e.Recv] || (e.Recv.Op == "init" && ev.seamType(e.Recv.Args[0]) != nil))
+	devirt := false
 	if c.IsInvoke() && ev.Cfg.ResolveInvoke != nil {
 		if f, nr := ev.Cfg.ResolveInvoke(ev, st, e.Recv, c.Method.Name()); f != nil {
 			callee = origin(f)
@@ -1749,6 +1768,34 @@ func (ev *Evaluator) doCall(st *State, fr *Frame, c *ssa.CallCommon, instr ssa.I
 			if nr != nil {
 				e.Recv = nr
 			}
+			devirt = seamRecv
+		}
+	}
+	// an unexported interface of the library with a single implementer is that implementer (a collaborator seam)
+	if c.IsInvoke() && callee == nil && e.Recv != nil {
+		// the receiver is a value built in line, or what a collaborator seam is known to hold: bound by its type
+		var f *ssa.Function
+		switch {
+		case e.Recv.Op == "struct" || ev.seamVals[e.Recv]:
+			f = ev.bindByTermType(e.Recv.Typ, c.Method.Name())
+		case e.Recv.Op == "init":
+			f = ev.bindByTermType(ev.seamType(e.Recv.Args[0]), c.Method.Name())
+		}
+		if f != nil {
+			callee = origin(f)
+			e.Fn = callee
+			e.Callee = qualName(callee)
+			e.Method = canonName(callee)
+			devirt = true
+		}
+	}
+	if c.IsInvoke() && callee == nil {
+		if f := ev.P.soleImplementer(c.Value.Type(), c.Method); f != nil {
+			callee = origin(f)
+			e.Fn = callee
+			e.Callee = qualName(callee)
+			e.Method = canonName(callee)
+			devirt = true
 		}
 	}
 	depth := len(st.frames) - st.base
@@ -1761,7 +1808,9 @@ func (ev *Evaluator) doCall(st *State, fr *Frame, c *ssa.CallCommon, instr ssa.I
 				inline = true
 			}
 			// a function literal called by the function that defines it (a local helper) is part of that function
-			if !inline && !isDefer && callee.Parent() != nil && onlyCalled(e.FnTerm) {
+			// ... and so is one handed to a helper that is being evaluated in line and calls it while the defining
+			// function is still running (doLocked(func() { … }))
+			if !inline && !isDefer && callee.Parent() != nil && (onlyCalled(e.FnTerm) || (fr.fn != callee.Parent() && !ev.Cfg.KeepHandedClosures)) {
 				for _, f := range st.frames[st.base:] {
 					if f.fn == callee.Parent() {
 						inline = true
@@ -1771,8 +1820,12 @@ func (ev *Evaluator) doCall(st *State, fr *Frame, c *ssa.CallCommon, instr ssa.I
 		} else if ev.Cfg.Inline != nil {
 			inline = ev.Cfg.Inline(callee, depth)
 		}
-		if !inline && !ev.Cfg.NoSamePkgInline && !c.IsInvoke() && e.FnTerm == nil && (callee.Parent() == nil || len(callee.FreeVars) == 0) && callee.Pkg != nil && callee.Pkg == ev.rootPkg && ev.P.InScope[callee] &&
+		if !inline && !ev.Cfg.NoSamePkgInline && (!c.IsInvoke() || devirt) && e.FnTerm == nil && (callee.Parent() == nil || len(callee.FreeVars) == 0) && callee.Pkg != nil && callee.Pkg == ev.rootPkg && ev.P.InScope[callee] &&
 			!ev.isProtocol(callee) && !ev.Cfg.Opaque[canonName(callee)] {
+			inline = true
+		}
+		// a call bound through a collaborator seam is the adapter the restructuring introduced: part of the caller
+		if !inline && devirt && ev.P.InScope[callee] {
 			inline = true
 		}
 		// a method expression's thunk is the method call it wraps
